@@ -362,6 +362,22 @@ def build_items(tier, rng, which):
         gapped.append([tuple((1 if l > 0 else -1) * ren[abs(l)] for l in c) for c in f])
     add("gapped", gapped, [()], 6 if q else 40, params={"max_solution_limit": 3})
     add("gapped_assume", [g for g in gapped[: (24 if q else 400)]], ["first_var_neg"], 6 if q else 40, params={"max_solution_limit": 2})
+    # (c'') long enumerations: few clauses over 5-6 (sparsely numbered) variables, so dozens of models; solution_limit symbolic up to 64 - the
+    # heap / phase / blocking-clause bookkeeping across many found models is what is exercised (every returned model must still be total)
+    enum = []
+    for _ in range((90 if q else 900) if which == "C01" else 0):  # (C01 only: the claim about every entry of the solutions tuple)
+        n = rng.choice([5, 6])
+        names = sorted(rng.sample(range(1, 9), n))
+        f = []
+        for _c in range(rng.randint(2, 4)):
+            k = rng.choice([3, 3, 4])
+            vs = rng.sample(names, k)
+            f.append(tuple(v * rng.choice([1, -1]) for v in vs))
+        enum.append(f)
+    if enum:
+        # named anchors: two clauses sharing their variables (stale heap entries matter), and an implication chain
+        enum += [[(-5, 3, 6), (1, -5, -3, 6)], [(-1, 2), (-2, 3), (-3, 4), (4, 5, 6)], [(1, 2, 3), (-1, -2, 4), (11, 12)]]
+        add("enumerate", enum, [()], 1, params={"max_solution_limit": 64, "sym_budgets": "none"}, path_wall_s=25)
     # (f) reduce_db with the threshold lowered to 2 learned clauses
     red = [random_cnf(rng, rng.choice([4, 5, 6, 7]), rng.randint(5, 14)) for _ in range(40 if q else 600)] + [php(3, 2), php(4, 3)]
     add("reduce_db", red, [()], 1 if q else 4, params={"reduce_at": 2, "max_solution_limit": 10, "sym_budgets": "restarts"},
